@@ -1,5 +1,6 @@
+from xeng import progs, progs2, progs3
 from . import _common
 
 
 def run(out):
-    _common.run(out, 'C12', s_props=['C12'])
+    _common.run(out, 'C12', x=[dict(fn=progs3.c12_corpus, name='c12', compile_violation=True)], s_props=['C12'])
